@@ -76,6 +76,9 @@ type Prog struct {
 	Vars []term.VarDecl
 	Src  string
 	Size int
+	// Infix: Src is infix text (forms prefix notation cannot write, such as
+	// a lone leaf); the program is compiled with InfixNotation on.
+	Infix bool
 }
 
 func MkProg(t *term.Term) *Prog {
@@ -151,12 +154,13 @@ func refOut(v interface{}, err error) drive.Out { return drive.Out{Val: v, Err: 
 // caseDesc is the replayable description of a single execution.
 func caseDesc(src string, o drive.Opt, vars []term.VarDecl, vals []interface{}, avail []bool, extra map[string]interface{}) map[string]interface{} {
 	m := map[string]interface{}{
-		"source":  src,
-		"config":  o.String(),
-		"optbits": o.OptBits(),
-		"events":  o.Events,
-		"undef":   o.Undef,
+		"source":    src,
+		"config":    o.String(),
+		"optbits":   o.OptBits(),
+		"events":    o.Events,
+		"undef":     o.Undef,
 		"directive": o.Directive,
+		"infix":     o.Infix,
 	}
 	if vals != nil {
 		m["binding"] = drive.BindingMap(vars, vals, avail)
